@@ -5,7 +5,7 @@
    signature bytes reach them and what the opcodes do with their verdict; the correspondence check compares exactly those arguments
    with the ones the implementation passes to CPubKey::Verify / XOnlyPubKey::VerifySchnorr. *)
 From BV Require Import Base Script Interp Session Tx Sighash SigProofs.
-From BV.Gen Require Import Consts.
+From BV.Gen Require Import Consts Sites.
 Local Open Scope Z_scope.
 
 (* --- which digest *)
@@ -121,6 +121,10 @@ Theorem C02_tapscript_validation_weight : forall c e sig key e' st b,
   (b = true -> ed_weight_left (e_ed e) < VALIDATION_WEIGHT_PER_SIGOP_PASSED -> st = SErr /\ e_err e' = SCRIPT_ERR_TAPSCRIPT_VALIDATION_WEIGHT).
 Proof. exact (tapscript_weight_charged (fun _ => true)). Qed.
 
+(* the comparison GENERATED from EvalChecksigTapscript: the budget is exhausted only below zero (using it up exactly is fine) *)
+Theorem C02_weight_exhausted_only_below_zero : forall w, cmp_eval site_weight_exhausted w 0 = (w <? 0).
+Proof. reflexivity. Qed.
+
 (* non-vacuity: a script with two code separators, one inside a push-free IF branch *)
 Example C02_strip_example :
   let code := [OP_0; OP_IF; OP_CODESEPARATOR; OP_ENDIF; 2; 7; 8; OP_CODESEPARATOR; OP_CHECKSIG] in
@@ -144,3 +148,4 @@ Print Assumptions C02_pubkey_encoding_errors.
 Print Assumptions C02_multisig_loop_is_ordered_matching.
 Print Assumptions C02_ordered_matching_characterisation.
 Print Assumptions C02_tapscript_validation_weight.
+Print Assumptions C02_weight_exhausted_only_below_zero.
